@@ -24,7 +24,7 @@ HARNESS_DIR = os.path.join(ROOT, "harness")
 CFG = "--cfg excsn_fibre_verif"
 
 TIER_CAP = {"quick": 600, "thorough": 5400}  # per-harness wall cap (s)
-MAX_JOBS = int(os.environ.get("VERIF_JOBS", "12"))
+MAX_JOBS = int(os.environ.get("VERIF_JOBS", "7"))
 
 
 def log(*a):
@@ -94,7 +94,7 @@ def prepare_pkg(pkg, tag):
 CBMC_FLAGS = ["--no-malloc-may-fail", "--no-undefined-shift-check", "--no-signed-overflow-check", "--nan-check",
               "--no-self-loops-to-assumptions", "--no-pointer-primitive-check", "--object-bits", "16",
               "--sat-solver", "cadical", "--slice-formula", "--verbosity", "8"]
-MEM_CAP_GB = int(os.environ.get("VERIF_MEM_GB", "14"))
+MEM_CAP_GB = int(os.environ.get("VERIF_MEM_GB", "8"))
 
 
 def build_goto(pkgdir, harnesses):
